@@ -128,6 +128,36 @@ pub fn flavour_for(rng: &mut Rng, cfg: &GenCfg, w: u16, h: u16) -> (Flavour, u16
     }
 }
 
+/// Another header encoding of the same picture size, where the syntax has one
+/// (Sorenson: fixed size codes 2..=6 vs 8-bit custom vs 16-bit custom).  Real
+/// encoders are free to mix them from picture to picture.
+pub fn requalify(rng: &mut Rng, fl: &Flavour, w: u16, h: u16) -> Flavour {
+    match fl {
+        Flavour::Sorenson { version, .. } => {
+            let mut codes: Vec<u8> = vec![1];
+            if w <= 255 && h <= 255 {
+                codes.push(0);
+            }
+            if let Some(i) = SORENSON_FIXED.iter().position(|d| *d == (w, h)) {
+                codes.push(2 + i as u8);
+                codes.push(2 + i as u8);
+            }
+            Flavour::Sorenson { version: *version, size_code: *rng.pick(&codes) }
+        }
+        other => other.clone(),
+    }
+}
+
+/// Sizes that have a fixed code in the Sorenson header (sub-QCIF, 160x120, QCIF;
+/// the two large ones only when `large`).
+pub fn gen_fixed_sorenson_size(rng: &mut Rng, large: bool) -> (u16, u16) {
+    if large && rng.chance(1, 4) {
+        *rng.pick(&[(352u16, 288u16), (320, 240)])
+    } else {
+        *rng.pick(&[(128u16, 96u16), (128, 96), (160, 120), (176, 144)])
+    }
+}
+
 pub fn gen_quant(rng: &mut Rng, cfg: &GenCfg) -> u8 {
     match cfg.quant_style {
         0 => rng.range(1, 6) as u8,
